@@ -105,39 +105,63 @@ func (c *Ctx) valueMatchTested(rule string) {
 // pushes, run's loop) is therefore never paid: those callers must charge
 // immediately (deferred = false) and must not call deferCost.
 func (c *Ctx) deferredOnlyInsideStep(rule string) {
+	hasDeferredParam := func(g *ssa.Function) bool {
+		ps := g.Signature.Params()
+		for i := 0; i < ps.Len(); i++ {
+			if ps.At(i).Name() == "deferred" {
+				return true
+			}
+		}
+		return false
+	}
 	for _, fn := range []string{"Verify", "(*virtualMachine).run"} {
-		f := c.Func(pVM, fn)
-		if f == nil {
+		root := c.Func(pVM, fn)
+		if root == nil {
 			continue
 		}
+		// the root and the helpers of package vm it reaches by static calls without entering an
+		// instruction (step) or a charging primitive (a function with its own deferred parameter)
+		seen := map[*ssa.Function]bool{root: true}
+		work := []*ssa.Function{root}
 		ok, d, n := true, "", 0
-		for _, s := range allCalls(f, true) {
-			g := staticCallee(s)
-			if g == nil || pkgRelOf(g) != pVM {
-				continue
-			}
-			if calleeKey(s) == "(*protocol/vm.virtualMachine).deferCost" {
-				ok, d = false, "deferCost called outside an instruction at "+c.Pos(s.Pos())
-				continue
-			}
-			ps := g.Signature.Params()
-			off := 0
-			if g.Signature.Recv() != nil {
-				off = 1
-			}
-			for i := 0; i < ps.Len(); i++ {
-				if ps.At(i).Name() != "deferred" || i+off >= len(s.Common().Args) {
+		for len(work) > 0 {
+			f := work[0]
+			work = work[1:]
+			for _, s := range allCalls(f, true) {
+				g := staticCallee(s)
+				if g == nil || pkgRelOf(g) != pVM {
 					continue
 				}
-				n++
-				k, isK := s.Common().Args[i+off].(*ssa.Const)
-				if !isK || k.Value == nil || k.Value.String() != "false" {
-					ok = false
-					d = calleeKey(s) + " at " + c.Pos(s.Pos()) + " defers its cost outside an instruction: step clears the deferred cost before the first instruction, so it is never charged"
+				if calleeKey(s) == "(*protocol/vm.virtualMachine).deferCost" {
+					ok, d = false, "deferCost called outside an instruction at "+c.Pos(s.Pos())
+					continue
+				}
+				if !hasDeferredParam(g) {
+					if !seen[g] && !strings.HasSuffix(fname(orig(g)), ".step") && len(g.Blocks) > 0 {
+						seen[g] = true
+						work = append(work, g)
+					}
+					continue
+				}
+				ps := g.Signature.Params()
+				off := 0
+				if g.Signature.Recv() != nil {
+					off = 1
+				}
+				for i := 0; i < ps.Len(); i++ {
+					if ps.At(i).Name() != "deferred" || i+off >= len(s.Common().Args) {
+						continue
+					}
+					n++
+					k, isK := s.Common().Args[i+off].(*ssa.Const)
+					if !isK || k.Value == nil || k.Value.String() != "false" {
+						ok = false
+						d = calleeKey(s) + " at " + c.Pos(s.Pos()) + " defers its cost outside an instruction: step clears the deferred cost before the first instruction, so it is never charged"
+					}
 				}
 			}
 		}
-		c.Require(rule, fname(f)+": costs incurred outside an instruction are charged immediately", ok, "%d call(s) with a deferred flag %s", n, d)
+		c.Require(rule, fname(root)+": costs incurred outside an instruction are charged immediately", ok, "%d call(s) with a deferred flag in %d function(s) %s", n, len(seen), d)
 	}
 }
 
